@@ -30,7 +30,11 @@ def match(prop, violation):
   for f in load():
     if f.get('status') != 'known' or f['property'] != prop:
       continue
-    if f['clause'] != violation['clause']:
+    if 'clause_prefix' in f:
+      # (the suffix of C04's clause only names which parts of the outcome differ from every serial order)
+      if not violation['clause'].startswith(f['clause_prefix']):
+        continue
+    elif f['clause'] != violation['clause']:
       continue
     sig = violation.get('sig', {})
     if all(sig.get(k) == v for k, v in f.get('match', {}).items()):
